@@ -39,7 +39,7 @@ ASSUMPTIONS = [
     "axis anchors use only what the parameter documentation states (direction of shear velocity; velocity +U "
     "along the horizontal at the centre of the upper cell edge; plate speed along the horizontal on the "
     "upper boundary of the corner flow)",
-    "a pathline that needs more than 5000 velocity evaluations (unchanged tree: <= ~220) or 10 s of CPU time "
+    "a pathline that needs more than 5000 velocity evaluations (unchanged tree: <= ~220) or 3 s of CPU time "
     "(unchanged tree: ~5 ms) is counted as not returned",
     "the reference integration never uses a velocity evaluated outside the callable's domain (it is repeated with "
     "bounded steps if a trial stage leaves the cell); if it cannot reach rtol 1e-10 within 30000 evaluations "
@@ -60,7 +60,7 @@ PAIRS = ["XZ", "XY", "YX", "YZ", "ZX", "ZY"]  # default first (the frame the tes
 DT = [("0", 0.0), ("1e-9", 1e-9), ("0.5", 0.5), ("1", 1.0), ("-1", -1.0), ("1e6", 1e6)]
 SI_SCALES = ["1", "1e-15", "1e6"]
 RHS_BUDGET = 5000
-CPU_BUDGET_S = 10.0  # per pathline (unchanged tree: ~5 ms)
+CPU_BUDGET_S = 3.0  # per pathline (unchanged tree: ~5 ms)
 REF_BUDGETS = (30000, 30000, 150000)  # per pass of the reference integration (unchanged tree: <= ~2000)
 CM_YR = 1.0 / (100.0 * 365.0 * 86400.0)
 
